@@ -1,0 +1,25 @@
+//go:build verif
+
+// Round-trip lemmas (C14) for the channel types, written as functions: each one encodes a value into w0 with the type's
+// encoder, states the lemma's hypothesis (verifLink: from here on the reader r0 replays what was written to w0) and decodes a
+// value from r0 with the type's decoder. Their contracts (zz_verif_contracts.go) state that decoding then fails only if the
+// reader fails, yields an equal value and consumes exactly what was written. The functions are never called; they are compiled
+// only with the build tag "verif" and exist so that the verification-condition generator in /verif (govc) checks the real
+// Encode and Decode methods against each other.
+
+package channel
+
+import "io"
+
+// verifLink marks the point where the lemma's hypothesis starts to hold; it does nothing.
+func verifLink(w io.Writer, r io.Reader) {}
+
+func verifRoundTripBalances(w0 io.Writer, r0 io.Reader, x Balances) (y Balances, encErr, decErr error) {
+	encErr = x.Encode(w0)
+	if encErr != nil {
+		return nil, encErr, nil
+	}
+	verifLink(w0, r0)
+	decErr = y.Decode(r0)
+	return y, nil, decErr
+}
